@@ -179,4 +179,44 @@ def whitespaceRanges : List (Nat × Nat) := [{ranges}]
     T.write("QuoteTables", body)
 
 
-TABLES = {"QuoteTables": quote_tables}
+def option_table(T):
+    """yash-env/src/option.rs: `enum Option` (declaration order = `Option::iter()` order), `long_name`,
+    `is_modifiable`, `OptionSet::default()`; yash-builtin/src/set.rs: shape of the `set +o` printer."""
+    src = strip_comments(T.read("yash-env/src/option.rs"))
+    ebody = T.item_body(src, r"pub enum Option\b", "option.rs enum Option")
+    variants = re.findall(r"^\s*([A-Z][A-Za-z]*),", ebody, re.M)
+    nbody = T.item_body(src, r"pub const fn long_name\(self\) -> &'static str", "Option::long_name")
+    names = dict(re.findall(r"([A-Z][A-Za-z]*) => \"([a-z]+)\"", nbody))
+    if not variants or set(variants) != set(names):
+        T.fail("option.rs: enum variants and long_name arms do not correspond")
+    m = re.search(r"pub const fn is_modifiable\(self\) -> bool \{\s*!matches!\(self, ([A-Za-z |]+)\)\s*\}", src)
+    if not m:
+        T.fail("Option::is_modifiable is no longer `!matches!(self, A | B | …)`")
+    fixed = [x.strip() for x in m.group(1).split("|")]
+    dbody = T.item_body(src, r"impl Default for OptionSet", "OptionSet::default")
+    m = re.search(r"let enabled_options = ([A-Za-z |]+);", dbody)
+    if not m:
+        T.fail("OptionSet::default: enabled_options not found")
+    on = [x.strip() for x in m.group(1).split("|")]
+    if not set(fixed) <= set(variants) or not set(on) <= set(variants):
+        T.fail("option.rs: unknown variant in is_modifiable / default")
+    setrs = re.sub(r"\s+", " ", strip_comments(T.read("yash-builtin/src/set.rs")))
+    shape = ('writeln!(print, "set +o {Portable}").unwrap(); '
+             'for option in yash_env::option::Option::iter().filter(|o| *o != Portable) { '
+             'let skip = if option.is_modifiable() { "" } else { "#" }; '
+             "let flag = match env.options.get(option) { State::On => '-', State::Off => '+', }; "
+             'writeln!(print, "{skip}set {flag}o {option}").unwrap(); } '
+             'if env.options.get(Portable) == State::On { writeln!(print, "set -o {Portable}").unwrap(); }')
+    if shape not in setrs:
+        T.fail("set.rs: the `set +o` printer (PrintOptionsMachineReadable) has changed")
+    rows = ", ".join(f'({T.lean_str(names[v])}.toList, {"false" if v in fixed else "true"}, {"true" if v in on else "false"})'
+                     for v in variants)
+    body = f"""/-- yash-env `Option` in `Option::iter()` order: (long name, `is_modifiable`, on in `OptionSet::default()`) -/
+def options : List (List Char × Bool × Bool) := [{rows}]
+/-- long name of `Option::Portable`, which `set +o` prints first (off) and last (if on) -/
+def portableName : List Char := {T.lean_str(names["Portable"])}.toList
+"""
+    T.write("OptionTable", body)
+
+
+TABLES = {"QuoteTables": quote_tables, "OptionTable": option_table}
